@@ -27,6 +27,17 @@ def _extract(wd):
     return extract_play.emit(wd, SPECS)
 
 
+def replay(g, obligation, wit, workroot):
+    """Library replay: the setter is called with the counterexample's argument on a real instance."""
+    from vlib import libreplay
+    fn = g.name.replace("api_", "")
+    v = wit.get("in_uarg") if fn == "opn2_setDeviceIdentifier" else wit.get("in_arg")
+    arg = int(str(v).rstrip("ul")) if v is not None else 0
+    if arg >= 2**31: arg -= 2**32
+    r = libreplay.run_driver(workroot, "replay/api_driver.cpp", [fn, arg])
+    return dict(reproduced=(r["rc"] == 1 and "REPLAY-VIOLATION" in r["stdout"]), driver="replay/api_driver.cpp", args=[fn, arg], output=r["stdout"][-400:], stderr=r["stderr"][-600:])
+
+
 def groups(tier):
     REPL = ["setErrorString", "partialReset", "OPN2_setupLocked", "opn2_isEmulatorAvailable"]
     return [Group("api_" + n, "harness/api_h.c", "h_" + n, enforce=n, replace=REPL, extract=_extract, object_bits=9,
